@@ -41,6 +41,8 @@ def build(v, Token):
 
 
 def describe(x):
+    if type(x).__name__ in ('Hostile', 'IntSub', 'FloatSub', 'StrSub', 'Html'):
+        return '%s(str=%r)' % (type(x).__name__, str(x))
     if type(x).__name__ == 'Token':
         return 'Token(%r, pos=%r, source=%r, filename=%r)' % (str.__str__(x), x.pos, x.source, x.filename)
     if isinstance(x, (list, tuple)):
@@ -92,7 +94,11 @@ def run_once(job, func, args, specns):
     """-> (verdict, detail)"""
     names = list(job['params'])
     env = dict(zip(names, args))
-    old_env = copy.deepcopy(env)
+    env.update(job.get('_extra_env', {}))
+    try:
+        old_env = copy.deepcopy(env)
+    except Exception:
+        old_env = dict(env)
     for r in job.get('requires', []):
         try:
             if not ceval(r, env, old_env, specns):
@@ -215,9 +221,13 @@ def main():
         mod = importlib.import_module(m)
         specns.update({k: v for k, v in vars(mod).items() if not k.startswith('__')})
     specns['Token'] = Token
+    hm = None
     if job.get('harness'):
         hm = importlib.import_module(job['harness'])
         func = getattr(hm, job['harness_func'])
+        for k in ('translate_count', 'is_exact', 'has_html', 'html_result'):
+            if hasattr(hm, k):
+                specns[k] = getattr(hm, k)
     else:
         func = resolve(job['target'])
     names = list(job['params'])
@@ -225,11 +235,33 @@ def main():
     if job['mode'] == 'replay':
         try:
             args = [build(job['inputs'][n], Token) for n in names]
+            job['_extra_env'] = {k: build(v, Token) for k, v in job['inputs'].items()
+                                 if k not in names}
         except Exception as e:
             print(json.dumps({'verdict': 'pre-false', 'detail': {'unbuildable': repr(e)}}))
             return
         verdict, detail = run_once(job, func, args, specns)
         out.update(verdict=verdict, detail=detail, inputs={n: describe(a) for n, a in zip(names, args)})
+    elif job.get('search', {}).get('generator'):
+        gm, gf = job['search']['generator']
+        gen = getattr(importlib.import_module(gm), gf)
+        tried = pre_ok = 0
+        out.update(verdict='holds', detail={})
+        for envd, setup in gen():
+            tried += 1
+            if hm is not None and hasattr(hm, 'setup'):
+                hm.setup(**setup)
+            job['_extra_env'] = {k: v for k, v in envd.items() if k not in names}
+            args = [envd[n] for n in names]
+            verdict, detail = run_once(job, func, args, specns)
+            if verdict != 'pre-false':
+                pre_ok += 1
+            if verdict == 'violates':
+                out.update(verdict='violates', detail=detail,
+                           inputs=dict({n: describe(a) for n, a in envd.items()}, __setup=repr(setup)))
+                break
+        out['tried'] = tried
+        out['pre_ok'] = pre_ok
     else:  # search
         hints = job.get('search', {})
         budget = hints.get('budget', 200000)
